@@ -17,7 +17,7 @@ RULE = ("one run = a Valve device in a real slow SyncGroup on the simulated bus 
         "simulated valve plant (travel time, stuck open/closed/mid, bouncing switches) "
         "produces the switch readings from the coil the terminal received; the user task "
         "changes the target at drawn times; the clock jumps by drawn amounts (1 ms up to "
-        "several moving times) between cycles; movingTime in {0.05, 1, 5}; 20-120 cycles "
+        "several moving times) between cycles; movingTime in {0.05, 1, 5, 0, inf}; 20-120 cycles "
         "after reset(); every Valve.update is compared step by step with a reference model "
         "of the statement; distinct = distinct event-log digests; non-trivial = the valve "
         "was commanded to move at least once")
@@ -43,13 +43,15 @@ def run(tape, scenario):
     specs = [dict(in_sz=1, out_sz=0, n_fmmu=2, use_fmmu=not tape.chance("c27/direct-in", 30)),
              dict(in_sz=0, out_sz=1, n_fmmu=2, use_fmmu=not tape.chance("c27/direct-out", 30))]
     sims, terms = wl.build(env, ec, specs)
-    moving = tape.pick("c27/movingTime", [0.05, 1.0, 5.0])
-    travel = moving * [0.2, 0.6, 0.95, 1.3][tape.draw("c27/travel", 4)]
+    # (0: no time to move at all; inf: supervision switched off)
+    moving = tape.pick("c27/movingTime", [0.05, 1.0, 5.0, 0.05, 1.0, 5.0, 0, float("inf")])
+    scale = moving if 0 < moving < float("inf") else 1.0     # for the plant and the clock
+    travel = scale * [0.2, 0.6, 0.95, 1.3][tape.draw("c27/travel", 4)]
     # the monotonic clock is the time since boot: the run may start anywhere, e.g. shortly
     # before 2**32 ms (49.7 days) or 2**31 ms of uptime
     uptime = tape.pick("c27/uptime", [0.0, 0.0, 0.0, 4294967.296, 2147483.648, 1.0e9, 86400.0])
     if uptime:
-        uptime -= moving * tape.pick("c27/before-the-wrap", [0.5, 2, 6, 20, 60])
+        uptime -= scale * tape.pick("c27/before-the-wrap", [0.5, 2, 6, 20, 60])
         world.now = max(0.0, uptime)
         world.count("c27/started-at-high-uptime")
     plant = dict(x=0.0, last=world.now, stuck=None, t_stuck=None)
@@ -161,7 +163,7 @@ def run(tape, scenario):
         # the clock jumps between cycles
         j = tape.draw("c27/jump", 12)
         if j >= 8:
-            world.now += [0.001, moving * 0.3, moving * 1.01, moving * 3][j - 8]
+            world.now += [0.001, scale * 0.3, scale * 1.01, scale * 3][j - 8]
             world.count("fault/clock-jump")
         if cycles[0] >= ncycles:
             asyncio.get_event_loop().call_soon(sg.task.cancel)
@@ -171,7 +173,7 @@ def run(tape, scenario):
     async def main(loop):
         await ec.connect()
         task = sg.start()
-        await asyncio.wait([task], timeout=60 + 4 * moving * ncycles)
+        await asyncio.wait([task], timeout=60 + 4 * scale * ncycles)
         if not task.done():
             task.cancel()
         elif not task.cancelled() and task.exception() is not None:
@@ -185,7 +187,7 @@ def run(tape, scenario):
             cycles[0] = 0
             model["done"] = False
             task = sg.start()
-            await asyncio.wait([task], timeout=60 + 4 * moving * ncycles)
+            await asyncio.wait([task], timeout=60 + 4 * scale * ncycles)
             if not task.done():
                 task.cancel()
             elif not task.cancelled() and task.exception() is not None:
